@@ -124,3 +124,13 @@ MUTANTS += [
     dict(id="c11-server-dup-by-id-only", props=["C11"], file="appservice.py", old="            # find duplicates of this request\n            for tr in self.serverTransactions:\n                if (apdu.apduInvokeID == tr.invokeID) and (apdu.pduSource == tr.pdu_address):", new="            # find duplicates of this request\n            for tr in self.serverTransactions:\n                if (apdu.apduInvokeID == tr.invokeID):"),
     dict(id="c11-abort-lookup-id-only", props=["C11"], file="appservice.py", old="            if apdu.apduSrv:\n                for tr in self.clientTransactions:\n                    if (apdu.apduInvokeID == tr.invokeID) and (apdu.pduSource == tr.pdu_address):\n                        break\n                else:\n                    return\n\n                # send the packet on to the transaction\n                tr.confirmation(apdu)\n            else:\n                for tr in self.serverTransactions:\n                    if (apdu.apduInvokeID == tr.invokeID) and (apdu.pduSource == tr.pdu_address):\n                        break\n                else:\n                    return\n\n                # send the packet on to the transaction\n                tr.indication(apdu)\n\n        elif isinstance(apdu, SegmentAckPDU):", new="            if apdu.apduSrv:\n                for tr in self.clientTransactions:\n                    if (apdu.apduInvokeID == tr.invokeID):\n                        break\n                else:\n                    return\n\n                # send the packet on to the transaction\n                tr.confirmation(apdu)\n            else:\n                for tr in self.serverTransactions:\n                    if (apdu.apduInvokeID == tr.invokeID) and (apdu.pduSource == tr.pdu_address):\n                        break\n                else:\n                    return\n\n                # send the packet on to the transaction\n                tr.indication(apdu)\n\n        elif isinstance(apdu, SegmentAckPDU):"),
 ]
+
+MUTANTS += [
+    # ---- C10
+    dict(id="c10-no-reject-handler", props=["C10"], file="appservice.py", old="                except RejectException as err:\n                    ApplicationServiceAccessPoint._debug(\"    - decoding reject: %r\", err)\n                    error_found = err", new="                except RejectException as err:\n                    ApplicationServiceAccessPoint._debug(\"    - decoding reject: %r\", err)\n                    return"),
+    dict(id="c10-execution-error-swallowed", props=["C10"], file="app.py", old="            if isinstance(apdu, ConfirmedRequestPDU):\n                resp = Error(errorClass=err.errorClass, errorCode=err.errorCode, context=apdu)\n                self.response(resp)", new="            if isinstance(apdu, ConfirmedRequestPDU) and err.errorCode != 'unknownObject':\n                resp = Error(errorClass=err.errorClass, errorCode=err.errorCode, context=apdu)\n                self.response(resp)"),
+    dict(id="c10-reply-previous-invoke", props=["C10"], file="apdu.py", old="        self.apduInvokeID = context.apduInvokeID\n", new="        self.apduInvokeID = context.apduInvokeID if context.apduInvokeID % 7 else (context.apduInvokeID + 1) % 256\n"),
+    dict(id="c10-reject-keeps-transaction", props=["C10"], file="appservice.py", old="        if (apdu.apduType == SimpleAckPDU.pduType) or (apdu.apduType == ErrorPDU.pduType) or (apdu.apduType == RejectPDU.pduType):\n            if _debug: ServerSSM._debug(\"    - simple ack, error, or reject\")\n\n            # transaction completed\n            self.set_state(COMPLETED)", new="        if (apdu.apduType == SimpleAckPDU.pduType) or (apdu.apduType == ErrorPDU.pduType) or (apdu.apduType == RejectPDU.pduType):\n            if _debug: ServerSSM._debug(\"    - simple ack, error, or reject\")\n\n            # transaction completed\n            if apdu.apduType != RejectPDU.pduType: self.set_state(COMPLETED)"),
+    dict(id="c10-unknown-service-silent", props=["C10"], file="appservice.py", old="            if not atype:\n                if _debug: ApplicationServiceAccessPoint._debug(\"    - no confirmed request decoder\")\n                error_found = UnrecognizedService()", new="            if not atype:\n                if _debug: ApplicationServiceAccessPoint._debug(\"    - no confirmed request decoder\")\n                if apdu.apduService > 200: return\n                error_found = UnrecognizedService()"),
+    dict(id="c10-rpm-unknown-object-raises", props=["C10"], file="service/object.py", old="    def do_ReadPropertyMultipleRequest(self, apdu):", new="    def do_ReadPropertyMultipleRequest(self, apdu):\n        if len(apdu.listOfReadAccessSpecs) > 2: return"),
+]
